@@ -67,7 +67,7 @@ func genC14(t *rapid.T) c14Prog {
 	p.Choices = rapid.SliceOfN(rapid.IntRange(0, 63), 8, 64).Draw(t, "choices")
 	p.Repeat = 3
 	// now and then the logs are replicas of one long history (more than a thousand entries each, different lengths)
-	if rapid.IntRange(0, 99).Draw(t, "large") == 0 {
+	if rapid.IntRange(0, 29).Draw(t, "large") == 19 {
 		for i := 0; i < n; i++ {
 			p.Setup.Preload = append(p.Setup.Preload, rapid.SampledFrom([]int{1030, 1100, 1100, 1290}).Draw(t, "preload"))
 		}
